@@ -174,8 +174,8 @@ def events(o):
 
 
 def external_variant_indices(eng, fn_name):
-    """{variant name: discriminant value} for enums of other crates, read off a function that matches on them: a switchInt target block that
-    is reached for exactly one value and downcasts the scrutinee `(_x as Variant)` names that value."""
+    """{variant name: discriminant value} for enums of other crates, read off a function that matches on them: `_d = discriminant(P);
+    switchInt(move _d) -> [v: bbK, ...]` where bbK is reached for exactly one value and downcasts the same place, `(P as Variant)`."""
     mir = eng.mirs[eng.by_name[fn_name]['mir']]
     s0, e0 = mir.index[fn_name]
     blocks, cur = {}, None
@@ -186,22 +186,32 @@ def external_variant_indices(eng, fn_name):
             blocks[cur] = []
         elif cur is not None:
             blocks[cur].append(ln)
-    out = {}
+    out, clash = {}, set()
     for bb, lines in blocks.items():
+        discr_of = {}
         for ln in lines:
-            m = re.search(r'switchInt\((?:move|copy) _\d+\) -> \[(.*?)\]', ln)
-            if not m:
+            md = re.match(r'^\s*(_\d+) = discriminant\((.+?)\);', ln)
+            if md:
+                discr_of[md.group(1)] = md.group(2).strip()
+            m = re.search(r'switchInt\((?:move|copy) (_\d+)\) -> \[(.*?)\]', ln)
+            if not m or m.group(1) not in discr_of:
                 continue
-            tg = re.findall(r'(\d+): bb(\d+)', m.group(1))
+            place = discr_of[m.group(1)]
+            tg = re.findall(r'(\d+): bb(\d+)', m.group(2))
             count = {}
             for v, b in tg:
                 count[b] = count.get(b, 0) + 1
             for v, b in tg:
                 if count[b] != 1:
                     continue
-                for l2 in blocks.get(int(b), [])[:6]:
-                    m2 = re.search(r'\(_\d+ as ([A-Z]\w+)\)', l2)
-                    if m2 and m2.group(1) not in ('Some', 'Ok', 'Err', 'None'):
-                        out.setdefault(m2.group(1), int(v))
+                for l2 in blocks.get(int(b), [])[:8]:
+                    m2 = re.search(r'\(' + re.escape(place) + r' as ([A-Z]\w+)\)', l2)
+                    if m2:
+                        nm = m2.group(1)
+                        if nm in out and out[nm] != int(v):
+                            clash.add(nm)
+                        out.setdefault(nm, int(v))
                         break
+    for nm in clash:
+        out.pop(nm, None)
     return out
